@@ -554,6 +554,7 @@ func s1ContMulti(passive bool) *s1Cont {
 		line.Fault = "first block of the peer's message was not accepted: " + res
 		return line
 	}
+	tB1 := time.Now()
 	done := make(chan error, 1)
 	go func() {
 		_, err := ses.cut.Conn.SendDataMessage(context.Background(), 6, 11, false, secs2.A(string(text)))
@@ -565,6 +566,10 @@ func s1ContMulti(passive bool) *s1Cont {
 	}
 	if ses.peer.SendBlock(b2, peerkit.SendOpts{EnqSent: true}) == "ack" {
 		line.FirstOnLine = "equipment"
+	}
+	if gap := time.Since(tB1); gap > s1T4/2 { // the library's T4 may legitimately have discarded the partial message
+		line.Fault = fmt.Sprintf("harness too slow between the peer's two blocks (%v, T4 %v)", gap, s1T4)
+		return line
 	}
 	for k := 0; k < 2; k++ {
 		if _, good, what := ses.peer.RecvBlock(2*time.Second, peerkit.RecvOpts{}); what == "block" && good {
